@@ -423,7 +423,93 @@ func c15Epoch(c *Ctx) {
 					pub = "AddSpecialization"
 				}
 			}
-			if pub == "" || len(compiles) == 0 {
+			if pub == "" {
+				return
+			}
+			if len(compiles) == 0 {
+				// a publication helper: a function that does not compile itself but stores code it is handed, called
+				// by a compiling function. It must guard the store with "epoch == the epoch I was handed", and every
+				// compiling caller must hand it an epoch it had before compiling.
+				var epochParams []*ssa.Parameter
+				for _, p := range fn.Params {
+					if bt, ok := p.Type().Underlying().(*types.Basic); ok && bt.Kind() == types.Uint64 {
+						epochParams = append(epochParams, p)
+					}
+				}
+				var callers []*ssa.Call
+				for _, g := range c.srcFuncs(jitPkg) {
+					hasCompile := false
+					eachInstr(g, func(_ *ssa.BasicBlock, _ int, x ssa.Instruction) {
+						if isCompile(x) {
+							hasCompile = true
+						}
+					})
+					if !hasCompile {
+						continue
+					}
+					eachInstr(g, func(_ *ssa.BasicBlock, _ int, x ssa.Instruction) {
+						if cl, ok := x.(*ssa.Call); ok && staticFn(cl) == fn {
+							callers = append(callers, cl)
+						}
+					})
+				}
+				if len(callers) == 0 || pub == "AddSpecialization" {
+					return
+				}
+				nPub++
+				k++
+				isParamEpoch := func(v ssa.Value) bool {
+					for _, p := range epochParams {
+						if stripConv(v) == ssa.Value(p) {
+							return true
+						}
+					}
+					return false
+				}
+				q := &pathQuery{fn: fn, target: func(x ssa.Instruction) bool { return x == ins }, cutEdge: func(b *ssa.BasicBlock, si int) bool {
+					iff := ifOf(b)
+					if iff == nil {
+						return false
+					}
+					for _, f := range eqFacts(iff.Cond, si == 0) {
+						if (isEpochLoad(f.x) && isParamEpoch(f.y)) || (isEpochLoad(f.y) && isParamEpoch(f.x)) {
+							return true
+						}
+					}
+					return false
+				}}
+				hit, path := q.fromEntry()
+				bad := hit != nil || len(epochParams) == 0
+				// callers: the epoch handed over was there before the compilation
+				for _, cl := range callers {
+					g := cl.Parent()
+					for i, p := range fn.Params {
+						isEp := false
+						for _, ep := range epochParams {
+							if ep == p {
+								isEp = true
+							}
+						}
+						if !isEp || i >= len(cl.Call.Args) {
+							continue
+						}
+						arg := stripConv(cl.Call.Args[i])
+						if _, isP := arg.(*ssa.Parameter); isP {
+							continue
+						}
+						ai, ok := arg.(ssa.Instruction)
+						if !ok {
+							bad = true
+							continue
+						}
+						eachInstr(g, func(_ *ssa.BasicBlock, _ int, x ssa.Instruction) {
+							if isCompile(x) && !dominatesInstr(ai, x) {
+								bad = true
+							}
+						})
+					}
+				}
+				c.ob("C15-R11", fnKey(fn)+"#publishes-only-in-the-epoch-it-compiled-in:"+pub+"-"+itoa(k), ins.Pos(), !bad, "the result of a compilation is cached (in a helper) without checking that no invalidation happened since the compilation started: an older, slower compilation of the route's previous definition overwrites the unit compiled from the new one and stale code is served from then on", c.blockPath(path)...)
 				return
 			}
 			nPub++
